@@ -52,6 +52,13 @@ def getRule : Sexp → Option Rule
     some { sels := ← ss.mapM getSel, decls := ← ds.mapM getDecl }
   | _ => none
 
+/-- `nil` | `(i sub)` -/
+def getRS : Nat → Sexp → Option RS
+  | 0, _ => none
+  | _+1, .atom "nil" => some .start
+  | fuel+1, .list [i, sub] => do some (.at (← i.asNat?) (← getRS fuel sub))
+  | _, _ => none
+
 def putGeom (g : PageGeom) : Sexp :=
   .list [.atom "geom", ofRat (g.h.mA + g.h.inner + g.h.mB), ofRat (g.v.mA + g.v.inner + g.v.mB), ofRat g.h.mA, ofRat g.h.inner, ofRat g.h.mB,
          ofRat g.v.mA, ofRat g.v.inner, ofRat g.v.mB]
@@ -76,6 +83,19 @@ def handle (req : Sexp) : Sexp :=
       let p : PageInfo := { index := ← index.asNat?, right := ← right.asBool?, blank := ← blank.asBool?,
                             name := ← name.asNat?, forced := false }
       some (ok [ofBool (s.matches p), ofNat s.spec.1, ofNat s.spec.2.1, ofNat s.spec.2.2])
+    -- (page lineH pageNo top height forced tree resume): one page of class-F layout (the "does it fit"
+    -- oracle of the early_end_justified judge): the lines placed and whether the box tree was finished
+    | .list [.atom "page", lineH, pageNo, top, height, forced, tree, resume] => do
+      let root ← getBox 64 tree
+      let rs ← getRS 64 resume
+      let top ← top.asInt?
+      let c : PageCtx := { pageNo := ← pageNo.asNat?, top, bottom := top + (← height.asInt?), forced := ← forced.asBool?,
+                           lineH := ← lineH.asInt? }
+      match layBox (geo c) root rs (geoInit c) true with
+      | .abort _ => some (.list [.atom "abort"])
+      | .ok br =>
+        some (ok [ofBool br.resume.isNone,
+                  .list (br.frag.placed.map (fun (t : Nat × Int) => Sexp.list [ofNat t.1, ofInt t.2]))])
     | _ => none
   r.getD (Sexp.err "c12: unknown or malformed request")
 
